@@ -22,6 +22,17 @@ def gen_history(seed, tier, cache=False, nsteps=(2, 6), multi_out_p=0.25):
         spec["config"]["dircompress"] = rng.chance(0.5)
         spec["config"]["cache_workers"] = rng.choice([0, 0, 2])
     req = pick_request(rng, spec)
+    reedit = None
+    if rng.chance(0.3):
+        # a source file that reaches a command only through a filegroup, edited several times in a row
+        pkg = rng.choice(sorted(spec["pkgs"]))
+        k = max([int(t["name"][1:]) for _, t in rs.all_targets(spec) if t["name"][1:].isdigit()] + [0]) + 1
+        spec["pkgs"][pkg]["files"]["fgsrc%d.txt" % k] = "fg v0\n"
+        base = {"deps": [], "salt": "f", "dir": None, "binary": False, "env": {}, "pass_env": [], "labels": [], "fail": False, "requires": [], "provides": {}, "content": None, "named_srcs": False}
+        spec["pkgs"][pkg]["targets"].append(dict(base, name="t%d" % k, kind="filegroup", srcs=["f:fgsrc%d.txt" % k], outs=[]))
+        spec["pkgs"][pkg]["targets"].append(dict(base, name="t%d" % (k + 1), kind="genrule", srcs=["t:" + rs.label(pkg, "t%d" % k)], outs=["t%d.out" % (k + 1)]))
+        req = list(req) + [rs.label(pkg, "t%d" % (k + 1))] if req != ["//..."] else req
+        reedit = (pkg, "fgsrc%d.txt" % k)
     states = [rs.clone(spec)]
     steps = []
     n = rng.rng(*nsteps)
@@ -52,6 +63,12 @@ def gen_history(seed, tier, cache=False, nsteps=(2, 6), multi_out_p=0.25):
         if r < 24:
             steps.append({"kind": "touch", "desc": "rewrite every source file with identical bytes", "state": len(states) - 1})
             continue
+        if reedit and rng.chance(0.6):
+            cur = rs.clone(cur)
+            cur["pkgs"][reedit[0]]["files"][reedit[1]] = "fg v%d\n" % (i + 1)
+            states.append(rs.clone(cur))
+            steps.append({"kind": "edit", "desc": "edit %s/%s again" % reedit, "state": len(states) - 1})
+            continue
         desc = None
         for _ in range(6):
             op = rng.choice(hl.EDIT_OPS + ([hl.op_dir_rename, hl.op_dir_add_entry, hl.op_edit_content_len] * 2 if cache else [hl.op_dir_add_entry, hl.op_edit_content_len]))
@@ -65,7 +82,7 @@ def gen_history(seed, tier, cache=False, nsteps=(2, 6), multi_out_p=0.25):
         states.append(rs.clone(cur))
         steps.append({"kind": "edit", "desc": desc, "state": len(states) - 1})
     threads = rng.choice([1, 2, 4, 8])
-    return {"states": states, "steps": steps, "req": req, "threads": threads, "seed": seed}
+    return {"states": states, "steps": steps, "req": req, "threads": threads, "seed": seed, "inplace": rng.chance(0.5)}
 
 
 def resolve_cache(spec, world):
@@ -96,6 +113,7 @@ def exec_history_c01(bindir, hist, check_noop=False, c03=False):
     """Runs the history; returns (violations [(cls, detail, step_index)], stats, sigs)."""
     out = []
     w = hl.World(bindir, "c01")
+    w.inplace = bool(hist.get("inplace"))
     try:
         args = ["build"] + hist["req"] + hl.BASE_ARGS + ["-n", str(hist["threads"])]
         last_built = {}   # label -> inputs digest at the time its command last ran
